@@ -134,6 +134,9 @@ func (n *Node) Show() string {
 // Heap is the set of live model nodes.
 type Heap struct {
 	Nodes []*Node
+	// Route selects how CheckNode reads a container: 0 Count/TypeOf/Get (KeyExists for objects), 1 Slice()/Dict(),
+	// 2 ForEach. The monitors vary it so that their own reads do not always take the same path through the library.
+	Route int
 }
 
 func (h *Heap) newNode(k spec.Kind) *Node {
@@ -356,6 +359,61 @@ func (h *Heap) CheckNode(n *Node) (res string) {
 	if n.Real == nil {
 		return ""
 	}
+	if n.K == spec.List && h.Route != 0 {
+		l := n.List()
+		var got []any
+		if h.Route == 1 {
+			got = l.Slice()
+		} else {
+			l.ForEach(func(i int, v any) {
+				if i == len(got) {
+					got = append(got, v)
+				} else {
+					got = append(got, fmt.Sprintf("<ForEach index %d out of order>", i))
+				}
+			})
+		}
+		if len(got) != len(n.E) {
+			return fmt.Sprintf("%s: %d elements seen (route %d), model has %d elements %s", n.Name(), len(got), h.Route, len(n.E), n.Show())
+		}
+		for i, e := range n.E {
+			if d := h.bindOrMatch(got[i], e); d != "" {
+				return fmt.Sprintf("%s: element %d (route %d): %s (model %s)", n.Name(), i, h.Route, d, n.Show())
+			}
+		}
+		return ""
+	}
+	if n.K == spec.Obj && h.Route != 0 {
+		o := n.Object()
+		got := map[string]any{}
+		if h.Route == 1 {
+			got = o.Dict()
+		} else {
+			dup := ""
+			o.ForEach(func(k string, v any) {
+				if _, d := got[k]; d {
+					dup = k
+				}
+				got[k] = v
+			})
+			if dup != "" {
+				return fmt.Sprintf("%s: ForEach visits key %q twice", n.Name(), dup)
+			}
+		}
+		if len(got) != len(n.M) {
+			return fmt.Sprintf("%s: %d fields seen (route %d), model has %d fields %s", n.Name(), len(got), h.Route, len(n.M), n.Show())
+		}
+		for k, e := range n.M {
+			g, ok := got[k]
+			if !ok {
+				return fmt.Sprintf("%s: key %q not seen (route %d), model has it (%s)", n.Name(), k, h.Route, n.Show())
+			}
+			if d := h.bindOrMatch(g, e); d != "" {
+				return fmt.Sprintf("%s: field %q (route %d): %s (model %s)", n.Name(), k, h.Route, d, n.Show())
+			}
+		}
+		return ""
+	}
 	if n.K == spec.List {
 		l := n.List()
 		if c := l.Count(); c != len(n.E) {
@@ -438,6 +496,17 @@ func (h *Heap) CheckAll() string {
 		}
 	}
 	return ""
+}
+
+// HasUnbound reports whether some model node still waits to be bound to the real container the library created for it
+// (binding happens during CheckAll, so a comparison must not be skipped while this is true).
+func (h *Heap) HasUnbound() bool {
+	for _, n := range h.Nodes {
+		if n.Real == nil {
+			return true
+		}
+	}
+	return false
 }
 
 // Dump prints the model heap (for violation reports).
